@@ -141,9 +141,10 @@ pub fn normalise(ctx: &Ctx) {
             let same_variant = std::mem::discriminant(a) == std::mem::discriminant(b);
             let (a, b) = (a.as_f64(), b.as_f64());
             if a.is_nan() || b.is_nan() || a > b {
-                // not a range: only the invariants are required, an error from the reader is fine
+                // not a range: only the invariants are required. An error is not acceptable: the
+                // raw data is sound, and with normalisation switched off the limits do not even matter
                 only_invariants = true;
-                may_fail = true;
+                may_fail = false;
                 cands.push((tlo, thi));
             } else if !same_variant || matches!(lmin, Some(LVal::Scaled(_))) {
                 // ambiguous ("limits of a variant that differs", "ScaledInteger limits raw or scaled"): either
